@@ -159,6 +159,8 @@ def run_scenario(sc, chooser=None, seed=0, max_steps=4000):
 
     # ---- monitors (independent of the Lean model) ------------------------------------------------
     viol = st["viol"]
+    for who, name, clock in sched.timed_wakeups:
+        viol.append("C20: thread %s came back from a timed acquire of %s although nothing had happened (polling instead of parking)" % (who, name))
     if outcome == "bound":
         viol.append("C20: step bound exceeded (%d steps) with threads %s still running" % (sched.steps, stuck))
     for k, n in st["ran"].items():
